@@ -120,7 +120,7 @@ func (w *World) kindRun(fn *ssa.Function, k int64, side string) *kindRunResult {
 				st.vals["__kind"] = zeroTerm(types.Typ[types.Int])
 				return false
 			}
-			sc := c.Call.StaticCallee()
+			sc := px.calleeOf(c, fr, st) // static, or through a function value the path knows
 			label, isB := "", false
 			if sc != nil {
 				label, isB = bounds[sc]
